@@ -6,7 +6,6 @@ use std::mem;
 use std::panic;
 use std::rc::Rc;
 use std::sync::Arc;
-use std::thread;
 
 use crate::coroutine_impl::{current_cancel_data, is_coroutine};
 use crate::coroutine_impl::{spawn_builder, Builder, Coroutine};
@@ -35,7 +34,8 @@ pub struct Scope<'a> {
 }
 
 struct DtorChain<'a> {
-    dtor: Box<dyn FnOnce() + 'a>,
+    // the argument tells the dtor that it runs while the owner unwinds
+    dtor: Box<dyn FnOnce(bool) + 'a>,
     next: Option<Box<DtorChain<'a>>>,
 }
 
@@ -45,7 +45,10 @@ enum JoinState {
 }
 
 impl JoinState {
-    fn join(&mut self) {
+    // `unwinding`: called from `Drop for Scope` with dtors left, i.e. the owner unwinds.
+    // `thread::panicking()` can't tell: a coroutine that yields while unwinding may be
+    // resumed by another thread, and leaves the flag set for the thread it left
+    fn join(&mut self, unwinding: bool) {
         let mut state = JoinState::Joined;
         mem::swap(self, &mut state);
         if let JoinState::Running(handle) = state {
@@ -63,11 +66,13 @@ impl JoinState {
             if let Some(c) = cancel {
                 c.enable_cancel();
                 // the child is done, now the pending cancel can take effect
-                c.check_cancel();
+                if !unwinding {
+                    c.check_cancel();
+                }
             }
 
             // TODO: when panic happened, the logic need to refine
-            if !thread::panicking() {
+            if !unwinding {
                 res.unwrap_or_else(|e| panic::resume_unwind(e));
             }
         }
@@ -93,7 +98,7 @@ where
         dtors: RefCell::new(None),
     };
     let ret = f(&scope);
-    scope.drop_all();
+    scope.drop_all(false);
     ret
 }
 
@@ -115,7 +120,7 @@ impl<'a> Scope<'a> {
     // resumed in the unwinding this causes. By initially running the
     // method outside of any destructor, we avoid any leakage problems
     // due to @rust-lang/rust#14875.
-    fn drop_all(&mut self) {
+    fn drop_all(&mut self, unwinding: bool) {
         loop {
             // use a separate scope to ensure that the RefCell borrow
             // is relinquished before running `dtor`
@@ -128,7 +133,7 @@ impl<'a> Scope<'a> {
                     return;
                 }
             };
-            dtor();
+            dtor(unwinding);
         }
     }
 
@@ -139,6 +144,17 @@ impl<'a> Scope<'a> {
     pub fn defer<F>(&self, f: F)
     where
         F: FnOnce() + 'a,
+    {
+        let mut dtors = self.dtors.borrow_mut();
+        *dtors = Some(DtorChain {
+            dtor: Box::new(move |_| f()),
+            next: dtors.take().map(Box::new),
+        });
+    }
+
+    fn defer_join<F>(&self, f: F)
+    where
+        F: FnOnce(bool) + 'a,
     {
         let mut dtors = self.dtors.borrow_mut();
         *dtors = Some(DtorChain {
@@ -175,9 +191,9 @@ impl<'a> Scope<'a> {
         let deferred_handle = Rc::new(RefCell::new(JoinState::Running(join_handle)));
         let my_handle = deferred_handle.clone();
 
-        self.defer(move || {
+        self.defer_join(move |unwinding| {
             let mut state = deferred_handle.borrow_mut();
-            state.join();
+            state.join(unwinding);
         });
 
         ScopedJoinHandle {
@@ -214,7 +230,7 @@ impl<'a> Scope<'a> {
 impl<T> ScopedJoinHandle<T> {
     /// Join the scoped coroutine, returning the result it produced.
     pub fn join(self) -> T {
-        self.inner.borrow_mut().join();
+        self.inner.borrow_mut().join(false);
         self.packet.take().unwrap()
     }
 
@@ -226,6 +242,7 @@ impl<T> ScopedJoinHandle<T> {
 
 impl Drop for Scope<'_> {
     fn drop(&mut self) {
-        self.drop_all()
+        // anything left here means that `f` or a dtor panicked
+        self.drop_all(true)
     }
 }
